@@ -93,6 +93,11 @@ func forEachInitializer(p *lang.Process, additional []string) (block []rune, var
 }
 
 func cmdForEachDefault(p *lang.Process, steps int, additional []string) error {
+	if steps < 0 {
+		p.Stdout.SetDataType(types.Null)
+		return fmt.Errorf("%s cannot be a negative number: %d", foreachStep, steps)
+	}
+
 	block, varName, err := forEachInitializer(p, additional)
 	if err != nil {
 		return err
